@@ -286,6 +286,21 @@ claim("C16",
       "restricted to +-2^k x + c with integer c.",
       "TLA+ design models checked by TLC + TLC trace validation of logged real calls", "5/C16")
 
+claim("C20",
+      "TLC checks SynLik.tla (standard, unbiased and misspecification-adjusted synthetic likelihoods on small integer data, d<=2: table "
+      "consistency incl. the published Ghurye-Olkin constant, determinant lemma, support of the unbiased estimator, whitening equivariance, "
+      "zero-gamma), BslMh.tla (4 bound types x widths x e^theta~ in {1/3,1/2,1,2,3}: inverse, Jacobian = derivative by the chord identity, "
+      "reciprocity, detailed balance w.r.t. posterior x Jacobian) and BslRound.tla (ModelBased/BSL round machine against an adversarial "
+      "client: no simulation for out-of-support proposals, chain length, rounds aligned, termination), with seven refuted negative "
+      "controls.  Real calls of the transform helpers, the Jacobian helper and _get_mh_ratio on constructed sampler states, of the "
+      "likelihood functions on lattice matrices, and real BSL.sample runs (scripted-lattice and seeded, native and scheduled client) are "
+      "validated by TLC against BslMh_Trace, SynLik_Trace and BslRound_Trace, which recompute expected values from logged inputs in exact "
+      "rational arithmetic plus logarithm tables.",
+      "Small scope; clauses a, b only on the {2,3,5,7}-smooth lattice, d<=2, Warton's 1e-5 guard inside an explicit tolerance; glasso, "
+      "semi-parametric likelihood, gamma samplers and seeded accept decisions not decided; round trip off the lattice to 1e-9; scripted "
+      "runs replace sampler.random_state with a duck-typed object.",
+      "TLA+ design models checked by TLC + TLC trace validation", "5/C20")
+
 ALL = ["C%02d" % i for i in range(1, 21)]
 
 
